@@ -112,17 +112,20 @@ class Ctx:
 
     MAX_ITERS = 2
 
-    def __init__(self, oracle, atom_abrupt=("raise",), op_raises=False, follow=None):
+    def __init__(self, oracle, atom_abrupt=("raise",), op_raises=False, follow=None, abrupt_by=None):
         self.o = oracle
         self.trace = []
         self.count = {}
         self.frame = Frame()
         self.memo = {}
         self.atom_abrupt = atom_abrupt      # completion kinds an atom may take besides normal
+        self.abrupt_by = abrupt_by or {}    # token name -> completion kinds (overrides atom_abrupt)
         self.op_raises = op_raises
         self.follow = follow                # emitted trace the reference may follow in Args segments
         self.cur_exc = None
         self.thunks = {}
+        self.uservals = {}                  # user names whose value is known (stored since the last opaque effect)
+        self.heads = {}                     # loop id -> temporaries store at each arrival at the loop head
 
     # -- bookkeeping
     def occ(self, key):
@@ -131,7 +134,21 @@ class Ctx:
         return k
 
     def event(self, *ev):
+        if ev[0] != "store":
+            self.uservals.clear()           # any opaque effect may rebind user variables
         self.trace.append(ev)
+
+    def store_user(self, name, v):
+        self.event("store", name, v)
+        self.uservals[name] = v
+
+    def load_user(self, name):
+        """Reading a variable has no effect of its own; right after a store its value is the stored one."""
+        if name in self.uservals:
+            return self.uservals[name]
+        k = self.occ(("load", name))
+        self.event("load", name, k)
+        return ("var", name, k)
 
     def may_raise(self, key):
         return bool(self.o.choose(("raises",) + key))
@@ -140,7 +157,9 @@ class Ctx:
     def atom(self, kind, tok):
         k = self.occ((kind, tok.name))
         self.event(kind, tok.name, k)
-        kinds = self.atom_abrupt if kind == "S" else tuple(a for a in self.atom_abrupt if a == "raise")
+        kinds = self.abrupt_by.get(tok.name, self.atom_abrupt)
+        if kind != "S":
+            kinds = tuple(a for a in kinds if a == "raise")
         c = self.o.choose(("completes", kind, tok.name, k), 1 + len(kinds))
         if c:
             ab = kinds[c - 1]
@@ -182,6 +201,27 @@ def is_temp(name):
     return name.startswith("_hy_")
 
 
+def _erase_occ(t):
+    """Erase occurrence indices so that the stores of two iterations can be compared."""
+    if isinstance(t, tuple):
+        return tuple(_erase_occ(x) for x in t)
+    if isinstance(t, int) and not isinstance(t, bool):
+        return "#"
+    return t
+
+
+def at_loop_head(c, loop_id, n):
+    """Records the temporaries store at a loop head; at the exploration bound, cuts the path and reports whether the
+    store equals the one at the previous arrival (then every further iteration repeats the explored one: the
+    one-step simulation argument that makes the loop obligation unbounded)."""
+    snap = tuple(sorted((k, _erase_occ(v)) for k, v in c.frame.snapshot().items() if k != "<consumer>"))
+    hs = c.heads.setdefault(loop_id, [])
+    hs.append(snap)
+    if n >= c.MAX_ITERS:
+        stable = len(hs) >= 2 and hs[-1] == hs[-2]
+        raise Abrupt("cut", ("loop", stable))
+
+
 # ---------------------------------------------------------------------------------------------
 # expressions
 # ---------------------------------------------------------------------------------------------
@@ -203,9 +243,7 @@ def ev(c, e):
             except KeyError:
                 c.event("unbound-temp", e.id)
                 raise Abrupt("raise", ("exc", "NameError", e.id))
-        k = c.occ(("load", e.id))
-        c.event("load", e.id, k)
-        return ("var", e.id, k)
+        return c.load_user(e.id)
     if isinstance(e, ast.IfExp):
         return ev(c, e.body) if c.truthy(ev(c, e.test)) else ev(c, e.orelse)
     if isinstance(e, ast.UnaryOp):
@@ -314,7 +352,9 @@ def ev_slice(c, s):
 def call_closure(c, f):
     node = f[2]
     if isinstance(node, ast.Lambda):
-        raise Unsupported("call of lambda")
+        if node.args.args or node.args.vararg or node.args.kwarg or node.args.kwonlyargs or node.args.posonlyargs:
+            raise Unsupported("call of lambda with parameters")
+        return ev(c, node.body)
     is_gen = any(isinstance(n, (ast.Yield, ast.YieldFrom)) for n in ast.walk(ast.Module(body=node.body, type_ignores=[])))
     if is_gen:
         k = c.occ(("gen", id(node)))
@@ -405,7 +445,7 @@ def store(c, t, v):
         if is_temp(t.id):
             c.frame.assign(t.id, v)
         else:
-            c.event("store", t.id, v)
+            c.store_user(t.id, v)
     elif isinstance(t, (ast.Tuple, ast.List)):
         names = []
         for i, x in enumerate(t.elts):
@@ -437,8 +477,7 @@ def for_loop(c, it_val, target, body, orelse, comp=False):
             raise Abrupt("raise", ("exc", "next", it, n))
         if r == 0:
             break
-        if n >= c.MAX_ITERS:
-            raise Abrupt("cut", ("loop", tuple(sorted(c.frame.snapshot().items(), key=lambda kv: kv[0]))))
+        at_loop_head(c, ("for", k), n)
         store(c, target, ("item", it, n))
         n += 1
         try:
@@ -543,8 +582,7 @@ def ex_while(c, s):
         if not c.truthy(ev(c, s.test)):
             ex(c, s.orelse)
             return
-        if n >= c.MAX_ITERS:
-            raise Abrupt("cut", ("loop", tuple(sorted(c.frame.snapshot().items(), key=lambda kv: kv[0]))))
+        at_loop_head(c, ("while", id(s)), n)
         n += 1
         try:
             ex(c, s.body)
@@ -623,7 +661,7 @@ def ex_try(c, s):
                     if is_temp(h.name):
                         c.frame.assign(h.name, ("caught", a.val))
                     else:
-                        c.event("store", h.name, ("caught", a.val))
+                        c.store_user(h.name, ("caught", a.val))
                 try:
                     ex(c, h.body)
                 finally:
